@@ -305,7 +305,8 @@ static void step(World& w, const std::string& key0, const H128& h0, uint64_t sig
     Cmp c(w);
     if (!c.bindNew() || !c.compareAll()) {
         viol(opn + ":mismatch-" + c.slug, c.detail);
-        if (op.code == OP_RWT) tr.kind = "replaceWholeText:mismatch-structure";   // one root cause (backwards walk enters the preceding element), several first symptoms
+        if (op.code == OP_RWT) tr.kind = "replaceWholeText:mismatch-structure";
+        if (op.code == OP_SETATTRNS) tr.kind = "setAttributeNS:mismatch-attributes";     // existing prefixed attribute replaced by a new node: several first symptoms   // one root cause (backwards walk enters the preceding element), several first symptoms
         if (treeOp && op.a >= 0 && w.H(op.a) && c.slug == "structure") {
             // an inserted node that is not the first child but carries the hidden FIRSTCHILD flag (copied by the clone constructor)
             const RNode& N = w.ref.d.n[op.a];
